@@ -3,10 +3,14 @@ In EXACT arithmetic (a linearly ordered field `K` whose `Num K` instance compute
 operations — `FieldLaws K` — and has no NaN) every one of the five chain methods is `ChainReducible`,
 and `<` satisfies `OrderLaws`.  So over such a `K` (e.g. `fieldNum ℚ`) the nnchain theorems hold for
 average / weighted / Ward too.  IEEE floats do NOT satisfy `FieldLaws` (and `ChainReducible` is false
-for them), which is why it stays a hypothesis in the float-facing statements.
+for them for weighted / Ward), which is why it stays a hypothesis in the float-facing statements.
+For average the clamp of the repaired `method::average` is a no-op here (`FieldLaws.average_eq_mean`,
+`Lemmas/AverageExact.lean`) and makes `ChainReducible α .average` a theorem for every ordered number
+type (`chainReducible_average`, `Lemmas/ChainIter.lean`).
 -/
 import Kodama.Lemmas.ChainIter
 import Kodama.Lemmas.FieldNum
+import Kodama.Lemmas.AverageExact
 import Mathlib.Tactic.Ring
 import Mathlib.Tactic.Linarith
 namespace Kodama
@@ -40,7 +44,7 @@ private theorem lt_false_of_le (F : FieldLaws K) {a b : K} (h : b ≤ a) : Num.l
 
 theorem average_ge (F : FieldLaws K) (sa sb : Nat) (hsa : 0 < sa) (va vb t : K)
     (h1 : t ≤ va) (h2 : t ≤ vb) : t ≤ Gen.average va vb sa sb := by
-  simp only [Gen.average, F.add, F.mul, F.div, F.ofNat]
+  rw [F.average_eq_mean va vb sa sb (by omega)]
   have ha : (0 : K) < (sa : K) := by exact_mod_cast hsa
   have hb : (0 : K) ≤ (sb : K) := by exact_mod_cast Nat.zero_le sb
   have hpos : (0 : K) < (sa : K) + (sb : K) := by linarith
